@@ -36,7 +36,8 @@ Fixpoint prefixes {A} (l : list A) (acc : list A) : list (list A) :=
   | x :: r => let acc' := acc ++ [x] in acc' :: prefixes r acc'
   end.
 
-(* validate_data_sorting(df, group_by=keys): level 0 by raw value, deeper levels by "|"-joined string key *)
+(* validate_data_sorting(df, group_by=keys): level 0 by raw value, deeper levels by the tuple of raw values
+   (after the repair 31c71dd; before it the tuple was flattened to a "|"-joined string with nulls spelt "__NULL__") *)
 Definition sorting_ok (cols : list str) (rows : list (list val)) (keys : list str) : bool :=
   match rows with
   | [] => true
@@ -47,8 +48,8 @@ Definition sorting_ok (cols : list str) (rows : list (list val)) (keys : list st
     | k0 :: _ =>
       contiguous val_eqb (map (fun r => col_val cols r k0) rows)
       && all_b (fun lvl =>
-                  contiguous str_eqb
-                    (map (fun r => join (s2l "|") (map (fun k => key_str (col_val cols r k)) lvl)) rows))
+                  contiguous (list_eqb val_eqb)
+                    (map (fun r => map (fun k => col_val cols r k) lvl) rows))
                (tl (prefixes uniq []))
     end
   end.
